@@ -162,6 +162,58 @@ def check_forward(ctx: Check, tree: Tree) -> None:
         raise AnalysisError(f"only {n_triples} (caller, callee, parameter) triples found (25 confirmed by hand)")
 
 
+def check_radius_reaches_barriers(ctx: Check, tree: Tree) -> None:
+    """R-FORWARD at term level: inside EnergyDependentWidth (the width of every pole of the relativistic
+    K-matrix and P-vector) EVERY barrier factor - FormFactor or BlattWeisskopfSquared, at s and at the
+    pole - depends on the caller's meson radius and angular momentum.  A barrier factor built from a
+    bare q^2 (radius 1 implied) is invisible to the keyword-level rule: it has no `meson_radius`
+    parameter at all."""
+    from ..poly import D, sym
+    from ..terms import ExtractionError, Opaque, TermEval, deep_atoms
+
+    D.reset()
+    te = TermEval(tree)
+    edw_q = "ampform.dynamics::EnergyDependentWidth"
+    if edw_q not in te.classes:
+        raise AnalysisError("vanished anchor: EnergyDependentWidth")
+    s_, m0, g0, ma, mb, L, d = (sym(n) for n in ("s", "m0", "gamma0", "ma", "mb", "L", "d"))
+    v = te.unfold_atom(te.single_atom(te.construct(edw_q, [s_, m0, g0, ma, mb, L, d], {"phsp_factor": Opaque(("ref", "PHSP"))})))
+    d_atom, l_atom = next(iter(d.atoms())), next(iter(L.atoms()))
+    barriers = []
+    seen: set = set()
+
+    def visit(x, depth=0):
+        for a in deep_atoms(te, x):
+            if not (isinstance(a, tuple) and a and a[0] == "app" and a in te.apps) or a in seen:
+                continue
+            seen.add(a)
+            name = te.apps[a].cls.split("::")[-1]
+            if name in {"FormFactor", "BlattWeisskopfSquared"}:
+                barriers.append((name, a))
+            if te.apps[a].cls in te.classes and name == "FormFactor" and depth < 3:
+                try:
+                    visit(te.unfold_atom(a), depth + 1)
+                except ExtractionError:
+                    pass
+
+    visit(v)
+    where = tree.loc(te.classes[edw_q].method("evaluate").node)
+    if len(barriers) < 2:
+        raise AnalysisError(f"EnergyDependentWidth.evaluate: {len(barriers)} barrier factors found (one at s and one at the pole expected)")
+    from ..poly import RF
+
+    bad = []
+    for name, a in barriers:
+        atoms = deep_atoms(te, RF.atom(a))
+        missing = [n for n, at in (("meson_radius", d_atom), ("angular_momentum", l_atom)) if at not in atoms]
+        if missing:
+            first = te.apps[a].args[0]
+            bad.append(f"{name}({'pole' if m0.atoms() <= deep_atoms(te, first) else 's'} ...) does not depend on {missing}")
+    ctx.verdict(not bad, "R-FORWARD", f"{edw_q}.evaluate::radius-reaches-every-barrier-factor", where,
+                f"EnergyDependentWidth: all {len(barriers)} barrier factors (at s and at the pole) depend on the caller's meson_radius and angular_momentum",
+                bad or None)
+
+
 def _is_abstract_or_stub(fn: FuncInfo) -> bool:
     body = [s for s in fn.node.body if not (isinstance(s, ast.Expr) and isinstance(s.value, ast.Constant))]
     return not body or any("abstractmethod" in unparse(d) or "overload" in unparse(d) for d in fn.node.decorator_list)
@@ -411,6 +463,7 @@ def run(ctx: Check, tree: Tree) -> None:
     ]
     D.reset()
     ctx.section(check_forward, ctx, tree)
+    ctx.section(check_radius_reaches_barriers, ctx, tree)
     ctx.section(check_f_vector, ctx, tree, "NonRelativisticPVector", rel=False)
     ctx.section(check_f_vector, ctx, tree, "RelativisticPVector", rel=True)
     ctx.section(check_pvector_wiring, ctx, tree)
